@@ -292,6 +292,11 @@ func GetAttr(self Object, keyObj Object) (res Object, err error) {
 
 // SetAttrString
 func SetAttrString(self Object, key string, value Object) (Object, error) {
+	// The built-in types are shared by all the contexts in the
+	// process so, as in CPython, their attributes can't be changed
+	if t, ok := self.(*Type); ok && t.Type().IsSubtype(TypeType) && t.Flags&TPFLAGS_HEAPTYPE == 0 {
+		return nil, ExceptionNewf(TypeError, "can't set attributes of built-in/extension type '%s'", t.Name)
+	}
 	// First look in type's dictionary etc for a property that could
 	// be set - do this before looking in the instance dictionary
 	setter := self.Type().NativeGetAttrOrNil(key)
@@ -335,6 +340,9 @@ func SetAttr(self Object, keyObj Object, value Object) (Object, error) {
 
 // DeleteAttrString
 func DeleteAttrString(self Object, key string) error {
+	if t, ok := self.(*Type); ok && t.Type().IsSubtype(TypeType) && t.Flags&TPFLAGS_HEAPTYPE == 0 {
+		return ExceptionNewf(TypeError, "can't set attributes of built-in/extension type '%s'", t.Name)
+	}
 	// First look in type's dictionary etc for a property that could
 	// be set - do this before looking in the instance dictionary
 	deleter := self.Type().NativeGetAttrOrNil(key)
